@@ -112,8 +112,14 @@ TabStep == /\ pc = "tab"
 Rsp(i) == [r1 |-> Mem(i).r1, s1 |-> Mem(i).s1, d1 |-> Mem(i).d1]
 Scal == /\ pc = "scal"
         /\ sc' = S!Scal(tb, dd, cx, Rsp(mi), cx.nm)
-        /\ wts' = Append(wts, FSub(Zero21, Rec[l].per[mi].oB))        \* the weight is DEFINED by the scalar on B
-        /\ pc' = "acc" /\ UNCHANGED <<l, scripts, abs, chal, rng, mi, r, cfg, wtid, cx, tb, dd, acc>>
+        /\ wts' = IF Is("VMSM") THEN Append(wts, FSub(Zero21, Rec[l].per[mi].oB)) ELSE wts      \* the weight is DEFINED by the scalar on B
+        /\ pc' = IF Is("VMSM") THEN "acc" ELSE "rec" /\ UNCHANGED <<l, scripts, abs, chal, rng, mi, r, cfg, wtid, cx, tb, dd, acc>>
+\* RecoverOnly: only the recovery equation, member by member
+RecStep == /\ pc = "rec"
+           /\ MaskOk(Mem(mi))
+           /\ IF mi < NP THEN mi' = mi + 1 /\ pc' = "red" /\ UNCHANGED l
+              ELSE mi' = mi /\ pc' = "run" /\ l' = l + 1
+           /\ UNCHANGED <<scripts, abs, chal, rng, r, cfg, wtid, cx, tb, dd, sc, acc, wts>>
 \* mask recovery as an equation without inverses (C09, C10): the recovered value m_k is the unique solution of
 \*   d1_k = eta_k + e*d_k + e^2 * (alpha_k + sum_j (e_j^2 dL_jk + e_j^-2 dR_jk) + m_k * z^2 * y^(nm+1))
 \* with the nonces derived from the VERIFIER's seed (right seed: the blinding factor; wrong seed: some other value)
@@ -162,9 +168,13 @@ Fin == /\ pc = "fin"
        /\ UNCHANGED <<scripts, abs, chal, rng, mi, r, cfg, wtid, cx, tb, dd, sc, acc, wts>>
 
 \* a call that never reached the final check must not have accepted (unless it was asked not to verify)
+RecoverArith == CheckArith /\ Is("VNoMSM") /\ cfg.mode = "RecoverOnly" /\ cfg.result = "ok" /\ NP >= 1
 VNoMSMEv == /\ (Is("VNoMSM") \/ Is("VSkip")) /\ pc = "run"
             /\ (Is("VNoMSM") /\ Verifying) => cfg.result # "ok"
-            /\ l' = l + 1 /\ UNCHANGED <<scripts, abs, chal, rng, pc, cfg, wtid>> /\ UNCHANGED avars
+            /\ IF RecoverArith
+               THEN /\ pc' = "red" /\ mi' = 1 /\ wts' = <<>> /\ acc' = <<>> /\ UNCHANGED <<l, r, cx, tb, dd, sc>>     \* micro-steps, then consume
+               ELSE /\ l' = l + 1 /\ UNCHANGED pc /\ UNCHANGED avars
+            /\ UNCHANGED <<scripts, abs, chal, rng, cfg, wtid>>
 
 VRetEv == /\ Is("VRet") /\ pc = "run"
           /\ Strict => \A i \in 1..NP : i <= Len(cfg.tids) =>
@@ -172,7 +182,7 @@ VRetEv == /\ Is("VRet") /\ pc = "run"
                 ELSE T!MatchesPrefix(scripts[cfg.tids[i]], T!Script(Mem(i)))
           /\ pc' = "idle" /\ l' = l + 1 /\ UNCHANGED <<scripts, abs, chal, rng, cfg, wtid>> /\ UNCHANGED avars
 
-Next == VCallEv \/ MerlinEv \/ VMSMStart \/ Red \/ Tab0 \/ TabStep \/ Scal \/ Acc \/ Fin \/ VNoMSMEv \/ VRetEv
+Next == VCallEv \/ MerlinEv \/ VMSMStart \/ Red \/ Tab0 \/ TabStep \/ Scal \/ RecStep \/ Acc \/ Fin \/ VNoMSMEv \/ VRetEv
 Spec == Init /\ [][Next]_vars
 
 \* ---- acceptance: every event consumed --------------------------------------------------------------
